@@ -23,6 +23,7 @@ import (
 //   - a loaded pointer: v = *p with p != nil on the path;
 //   - a freshly made slice (its filling is a separate obligation, C04.e);
 //   - a phi, each operand justified on its own edge.
+//
 // A zero constant with a nil error, or a value whose producing test is negated, is a
 // manufactured hit.
 type provSpec struct {
